@@ -411,6 +411,33 @@ fn w9_same_location_diagnostics() -> String {
     out
 }
 
+/// w10: sizes above the small-collection thresholds (std's sort switches algorithm above 20
+/// elements, apollo's argument lookup switches to a hash map above 20 arguments): many diagnostics
+/// with several at the same offset, and field merging over a field with 24 arguments.
+fn w10_above_thresholds() -> String {
+    let n = 24;
+    let args_def: String = (0..n).map(|i| format!("a{i}: Int")).collect::<Vec<_>>().join(", ");
+    let schema_text = format!("type Query {{ f({args_def}): Int g: Int }}");
+    let schema = Schema::parse_and_validate(schema_text.as_str(), "wide.graphql").expect("wide schema");
+    // every variable is unused AND of an undefined type (two diagnostics per variable definition)
+    let vars: String = (0..n).map(|i| format!("$v{i}: Nope{i}")).collect::<Vec<_>>().join(", ");
+    let all1: String = (0..n).map(|i| format!("a{i}: 1")).collect::<Vec<_>>().join(", ");
+    let all2: String = (0..n).map(|i| format!("a{i}: {}", if i % 3 == 0 { 1 } else { 2 })).collect::<Vec<_>>().join(", ");
+    let docs = [
+        format!("query Q({vars}) {{ g }}"),
+        format!("{{ f({all1}) f({all2}) }}"),
+        format!("query Q({vars}) {{ x: f({all1}) x: f({all2}) y: f({all2}) y: f({all1}) nope1 nope2 nope3 }}"),
+    ];
+    let mut out = String::new();
+    for (i, d) in docs.iter().enumerate() {
+        match ExecutableDocument::parse_and_validate(&schema, d.as_str(), format!("t{i}.graphql")) {
+            Ok(doc) => out.push_str(&format!("VALID {i}\n{doc}\n")),
+            Err(e) => out.push_str(&format!("INVALID {i} ({} diagnostics)\n{}", e.errors.len(), diag_render(&e.errors))),
+        }
+    }
+    out
+}
+
 /// w5: apollo-smith, bytes → document text (uses std HashMap internally: covered by the
 /// cross-process part; here it rides along).
 fn w5_smith() -> String {
@@ -481,6 +508,7 @@ fn workloads() -> Vec<Workload> {
     w.push(("w7-multi-source", Box::new(w7_multi_source)));
     w.push(("w8-adopt-orphan-extensions", Box::new(w8_adopt_orphans)));
     w.push(("w9-same-location-diagnostics", Box::new(w9_same_location_diagnostics)));
+    w.push(("w10-above-collection-thresholds", Box::new(w10_above_thresholds)));
     w
 }
 
